@@ -16,6 +16,10 @@ def _case(rng):
     n = int(rng.integers(1, 5))
     rho = random_rho(rng, N, ["pure", "mixed", "basis"][int(rng.integers(0, 3))])
     H = np.diag(np.sort(rng.normal(size=N)) * 0.1)
+    if rng.random() < 0.5:
+        # a non-diagonal electronic Hamiltonian (diabatic representation): tr(rho H) has a coherence part
+        off = rng.normal(size=(N, N)) * 0.05
+        H = H + np.triu(off, 1) + np.triu(off, 1).T
     FM = rng.normal(size=(N, N, n)) * 0.05
     FM = 0.5 * (FM + np.transpose(FM, (1, 0, 2)))
     F = np.array([FM[i, i, :] for i in range(N)])
@@ -49,7 +53,7 @@ def oracle_force(args):
 def _run(spec, dt, steps):
     from mudslide.ehrenfest import Ehrenfest
     rng = np.random.Generator(np.random.PCG64(spec["model_seed"]))
-    model = SynthModel(rng, spec["N"], spec["n"], scale=0.03, gap=0.01)
+    model = SynthModel(rng, spec["N"], spec["n"], scale=0.03, gap=0.01, representation=spec.get("representation", "adiabatic"))
     rho0 = random_rho(rng, spec["N"], "pure")
     t = Ehrenfest(model, np.array(spec["x0"]), np.array(spec["p0"]), rho0, state0=spec["state"], dt=dt, max_steps=steps,
                   electronic_integration=spec.get("integ", "exp"))
@@ -108,9 +112,9 @@ ORACLES = {"force": oracle_force, "run": oracle_run}
 
 
 def run(ctx):
-    ctx.rule = ("random (rho, H, force matrix) with N=2..7 states, n=1..4 dims, pure/mixed/basis rho handed to the real "
+    ctx.rule = ("random (rho, H, force matrix) with N=2..7 states, n=1..4 dims, pure/mixed/basis rho, diagonal and non-diagonal H, handed to the real "
                 "Ehrenfest.potential_energy/_force; whole Ehrenfest runs on synthetic multi-state models with coherent initial "
-                "states at dt and dt/2. Non-trivial = rho with coherences and off-diagonal forces; distinct by (N, n, rho kind)")
+                "states at dt and dt/2, both integrators, adiabatic and diabatic representation. Non-trivial = rho with coherences and off-diagonal forces; distinct by (N, n, rho kind)")
     ctx.assumptions += ["energy conservation 'up to a discretisation error that vanishes with dt' is tested by halving dt "
                         "(a test); the exact balance d/dt(KE+tr rho H) = v.(F_used - F_meanfield) is the Lean theorem energy_rate"]
     ctx.fingerprints["mudslide/ehrenfest.py"] = fingerprint("mudslide/ehrenfest.py", ["potential_energy", "_force", "surface_hopping"])
@@ -150,14 +154,16 @@ def run(ctx):
                 # force is a different violation
                 sig = "ehrenfest-force-no-coherence" if obs["is_population_weighted_force"] else "ehrenfest-force-other"
             ctx.oracle_fail(sig, "force", c, obs, req, text)
-    for i in range(ctx.budget(4, 60)):
+    for i in range(ctx.budget(8, 60)):
         N = int(rng.integers(2, 5))
         n = int(rng.integers(1, 3))
         spec = dict(N=N, n=n, model_seed=int(rng.integers(1, 10 ** 6)), x0=list(rng.normal(size=n) * 0.3),
                     p0=list(rng.normal(size=n) * 8 + 4), state=0, dt=float(rng.choice([2.0, 4.0])), steps=60,
                     integ=["exp", "linear-rk4"][i % 2])
+        if (i // 2) % 2 == 1:
+            spec["representation"] = "diabatic"
         ok, obs, req, text = oracle_run(spec)
-        ctx.case(("run", N, n, spec["integ"]))
+        ctx.case(("run", N, n, spec["integ"], spec.get("representation", "adiabatic")))
         ctx.count("runs")
         if not ok:
             if obs.get("problems"):
